@@ -296,6 +296,9 @@ func visitInstr(fr *frame, instr ssa.Instruction) continuation {
 		if i.frozen != nil {
 			i.checkFrozen(addr, instr.Pos())
 		}
+		if sub := i.ctx.sub(); sub != nil && !sub.cells[addr] {
+			panic(pureAbort{"store to a cell the callee did not allocate"})
+		}
 		store(mustDeref(instr.Addr.Type()), addr, fr.get(instr.Val))
 
 	case *ssa.If:
@@ -353,6 +356,9 @@ func visitInstr(fr *frame, instr ssa.Instruction) continuation {
 			addr = fr.env[instr].(*value)
 		}
 		*addr = zero(mustDeref(instr.Type()))
+		if sub := i.ctx.sub(); sub != nil {
+			sub.registerCell(addr, 0)
+		}
 
 	case *ssa.MakeSlice:
 		ln, ok1 := i.ctx.concretizeInt(instr.Pos(), fr.get(instr.Len), 0, 16)
@@ -370,6 +376,11 @@ func visitInstr(fr *frame, instr ssa.Instruction) continuation {
 		for k := range slice {
 			slice[k] = zero(tElt)
 		}
+		if sub := i.ctx.sub(); sub != nil {
+			for k := range slice {
+				sub.registerCell(&slice[k], 0)
+			}
+		}
 		fr.env[instr] = slice[:ln]
 
 	case *ssa.MakeMap:
@@ -381,7 +392,11 @@ func visitInstr(fr *frame, instr ssa.Instruction) continuation {
 				reserve = asInt64(fr.get(instr.Reserve))
 			}
 		}
-		fr.env[instr] = makeMap(instr.Type().Underlying().(*types.Map).Key(), reserve)
+		nm := makeMap(instr.Type().Underlying().(*types.Map).Key(), reserve)
+		if sub := i.ctx.sub(); sub != nil {
+			sub.maps[nm.(*omap)] = true
+		}
+		fr.env[instr] = nm
 
 	case *ssa.Range:
 		fr.env[instr] = rangeIter(i, fr.get(instr.X))
@@ -437,6 +452,9 @@ func visitInstr(fr *frame, instr ssa.Instruction) continuation {
 		v := fr.get(instr.Value)
 		switch m := m.(type) {
 		case *omap:
+			if sub := i.ctx.sub(); sub != nil && !sub.maps[m] {
+				panic(pureAbort{"update of a map the callee did not create"})
+			}
 			if i.frozenMaps != nil && i.frozenMaps[m] {
 				i.ctx.reportFailure("frame", "write into a frozen map", instr.Pos(), nil, fr.stack())
 			}
@@ -563,6 +581,21 @@ func callSSA(i *interpreter, caller *frame, callpos token.Pos, fn *ssa.Function,
 			panic(unsupported("no code for function %s", fn.String()))
 		}
 	}
+	if i.initDepth == 0 && i.isPure(fn) {
+		if res, ok := i.callPure(caller, callpos, fn, args, env); ok {
+			return res
+		}
+	}
+	return callSSAInner(i, caller, callpos, fn, args, env)
+}
+
+// callSSAInner interprets the body of fn.
+func callSSAInner(i *interpreter, caller *frame, callpos token.Pos, fn *ssa.Function, args []value, env []value) value {
+	fr := &frame{
+		i:      i,
+		caller: caller, // for panic/recover
+		fn:     fn,
+	}
 	i.depth++
 	if i.depth > 400 {
 		panic(unsupported("call depth exceeded in %s", fn.String()))
@@ -587,9 +620,13 @@ func callSSA(i *interpreter, caller *frame, callpos token.Pos, fn *ssa.Function,
 	fr.env = make(map[ssa.Value]value)
 	fr.block = fn.Blocks[0]
 	fr.locals = make([]value, len(fn.Locals))
+	sub := i.ctx.sub()
 	for k, l := range fn.Locals {
 		fr.locals[k] = zero(mustDeref(l.Type()))
 		fr.env[l] = &fr.locals[k]
+		if sub != nil {
+			sub.registerCell(&fr.locals[k], 0)
+		}
 	}
 	for k, p := range fn.Params {
 		fr.env[p] = args[k]
